@@ -273,3 +273,12 @@ Require Copia.Proofs.TieOneWayPrint.
 Theorem C04_print_and_exit_are_translation_of_source : TieOneWayPrint.oneway_print_is_translation.
 Proof. exact TieOneWayPrint.oneway_print_is_translation_holds. Qed.
 Print Assumptions C04_print_and_exit_are_translation_of_source.
+
+(** The parser of the remote listing ([parse_listing]) is the translation of meta.rs `parse_remote_meta_output` as the
+    source has it now: records between NUL bytes, cut at the first two TABs (the path keeps its own TABs), size as u64 or
+    the record is skipped, mtime = the text before the first `.` as i64 or 0, one leading `./` removed, empty paths
+    skipped, later records replace earlier ones (Gen/ListingParseGen.v, Proofs/TieListing.v). *)
+Require Copia.Proofs.TieListing.
+Theorem C04_listing_parser_is_translation_of_source : TieListing.listing_parser_is_translation.
+Proof. exact TieListing.listing_parser_is_translation_holds. Qed.
+Print Assumptions C04_listing_parser_is_translation_of_source.
